@@ -1096,9 +1096,11 @@ def rule_r4(repo: Repo, res: Result) -> None:
     init_ = g_.methods.get("__init__")
     tag = f"{init_.relpath if init_ is not None else NXGRAPH}::NetworkxGraph::nodes, hierarchy edges and import edges on model inputs"
     wh = where(init_, init_.node) if init_ is not None else ""
-    if und and not bad and verdict is not None:
-        # the shape could not be read; its meaning on the model inputs decides
-        res.obligations += scratch.obligations
+    partial = bool(und) and bool(bad) and len(bad_construction) == len(bad) and verdict is True
+    if und and (not bad or partial) and verdict is not None:
+        # the shape could not be read (what the reading still claims about a construction it gave up on - 'no node is created
+        # from ..' next to an unread `add_nodes_from` - is no evidence); the meaning on the model inputs decides
+        res.obligations += [o for o in scratch.obligations if o.ok]
         res.floors.update({k: v for k, v in scratch.floors.items() if v[1] >= v[0]})
         res.undecided += [u for u in scratch.undecided if u["rule"] != "C04.R4"]
         res.add("C04.R4", tag, verdict, detail + (f" (symbolic reading gave up: {und[0]['detail'][:160]})" if verdict else ""), wh, kind="decision-table")
@@ -1110,7 +1112,11 @@ def rule_r4(repo: Repo, res: Result) -> None:
         res.undecided += scratch.undecided
         res.undecide("C04.R4", tag, f"the symbolic reading reports `{bad[0].detail[:200]}`, but {detail[:200]}: the two do not agree, no verdict", wh)
         return
-    res.obligations += scratch.obligations
+    if verdict is False and und and len(bad_construction) == len(bad):
+        # a reading that gave up on part of the construction: the counterexample of the model is the evidence, not its guesses
+        res.obligations += [o for o in scratch.obligations if o.ok]
+    else:
+        res.obligations += scratch.obligations
     res.floors.update(scratch.floors)
     res.undecided += scratch.undecided
     res.observations += scratch.observations
